@@ -96,6 +96,9 @@ def draw_params(rng):
         L = -float(10 ** rng.uniform(math.log10(max(5.0, zm / 5.0)), 4))
     else:
         L = float(10 ** rng.uniform(math.log10(max(5.0, zm / 1.5)), 4))
+    un = rng.random()
+    if un < 0.08:      # neutral stratification written as an infinite / practically infinite Obukhov length
+        L = float(rng.choice([math.inf, -math.inf, 1e12, -1e12, 1e300]))
     ustar = float(rng.uniform(0.1, 1.0))
     P0 = km_params(zm, z0, 1.0, ustar, L)
     # log-law wind at zm, perturbed (the function takes ws and z0 independently)
@@ -203,7 +206,8 @@ def run_case(case):
     npos = int((ffm > 0).sum())
 
     # ---------------------------------------------------------------- (b) integer / float parity
-    zi, Li = int(round(zm)) or 1, int(round(L)) or (1 if L > 0 else -1)
+    Lfin = L if math.isfinite(L) and abs(L) < 2e9 else math.copysign(10**9, L)  # integer-typed twin of an (almost) infinite length (fits int32)
+    zi, Li = int(round(zm)) or 1, int(round(Lfin)) or (1 if L > 0 else -1)
     z0i = 1 if zi >= 6 else None
     wsi, usi, svi, resi = max(1, int(round(ws))), 1, max(1, int(round(sigma_v))), max(1, int(round(res)))
     domi = (-resi * 10, resi * 10, -resi * 8, resi * 8)
